@@ -387,3 +387,21 @@ def register_bucket_chain_actor(router, name, conn, calls, args_id):
     body.__name__ = name
     router.actor(name=name)(body)
     return body
+
+
+# ---------------------------------------- C18: a provider declared to run in a separate process (must be importable there)
+def heavy_provider():
+    import os
+
+    return ("declared", os.getpid())
+
+
+def register_inproc_actor(router, name, received):
+    dep = Depends(heavy_provider, run_in_process=True)
+
+    async def body(v: Annotated[Any, dep], tag: str = ""):
+        received.append((tag, v))
+
+    body.__name__ = name
+    router.actor(name=name)(body)
+    return dep
